@@ -1,1 +1,112 @@
-// harnesses for this module (included by the isomer_erbium_verif hook)
+// Kani harnesses for crates/erbium-core/src/pktparser/mod.rs (C05: bounds-checked cursor).
+#[cfg(kani)]
+mod k {
+    use super::super::*;
+
+    fn one_op(buf: &mut Buffer<'_>, data: &[u8]) {
+        // invariant of the cursor: offset never passes the end
+        assert!(buf.offset <= buf.buffer.len(), "cursor invariant before");
+        let before = buf.offset;
+        let arg: usize = kani::any();
+        kani::assume(arg <= 65535); // largest count any wire length field can produce
+        match kani::any::<u8>() % 9 {
+            0 => {
+                let r = buf.get_u8();
+                if let Some(b) = r {
+                    assert!(b == data[before] && buf.offset == before + 1, "get_u8 returns the byte under the cursor");
+                } else {
+                    assert!(before == data.len() && buf.offset == before, "get_u8 fails only at the end, cursor unchanged");
+                }
+            }
+            1 => {
+                let r = buf.peek_u8();
+                assert!(buf.offset == before, "peek does not move");
+                assert!(r.is_some() == (before < data.len()), "peek fails only at the end");
+            }
+            2 => {
+                let r = buf.get_bytes(arg);
+                match r {
+                    Some(s) => assert!(s.len() == arg && buf.offset == before + arg && before + arg <= data.len(), "get_bytes returns exactly the requested window"),
+                    None => assert!(before + arg > data.len() && buf.offset == before, "get_bytes fails only when the window passes the end"),
+                }
+            }
+            3 => {
+                let r = buf.get_be16();
+                match r {
+                    Some(v) => assert!(v == ((data[before] as u16) << 8 | data[before + 1] as u16) && buf.offset == before + 2, "get_be16 big-endian"),
+                    None => assert!(before + 2 > data.len() && buf.offset == before, "get_be16 fails only when truncated"),
+                }
+            }
+            4 => {
+                let r = buf.get_be32();
+                match r {
+                    Some(v) => assert!(v == u32::from_be_bytes([data[before], data[before + 1], data[before + 2], data[before + 3]]) && buf.offset == before + 4, "get_be32 big-endian"),
+                    None => assert!(before + 4 > data.len() && buf.offset == before, "get_be32 fails only when truncated"),
+                }
+            }
+            5 => {
+                let r = buf.get_ipv4();
+                match r {
+                    Some(v) => assert!(v.octets() == [data[before], data[before + 1], data[before + 2], data[before + 3]], "get_ipv4 octet order"),
+                    None => assert!(before + 4 > data.len() && buf.offset == before, "get_ipv4 fails only when truncated"),
+                }
+            }
+            6 => {
+                let r = buf.get_tlv();
+                if let Some((t, v)) = r {
+                    assert!(t == data[before] && v.len() == data[before + 1] as usize, "tlv type and declared length");
+                    assert!(before + 2 + v.len() <= data.len(), "tlv value inside the buffer");
+                }
+            }
+            7 => {
+                let r = buf.get_buffer(arg);
+                match r {
+                    Some(b) => assert!(b.size() == arg && b.remaining() == arg && buf.offset == before + arg, "sub-buffer is the requested window"),
+                    None => assert!(before + arg > data.len(), "get_buffer fails only when the window passes the end"),
+                }
+            }
+            _ => {
+                let r = buf.remaining();
+                assert!(r == data.len() - before && buf.empty() == (r == 0), "remaining/empty");
+            }
+        }
+        assert!(buf.offset <= buf.buffer.len(), "cursor invariant after");
+    }
+
+    /// VERIF: {"p":"C05","tier":"quick","fns":["pktparser::Buffer::{new,get_u8,peek_u8,get_bytes,get_be16,get_be32,get_ipv4,get_tlv,get_buffer,remaining,empty,size}"],"bounds":"buffers of symbolic length 0..=8 with symbolic content; any sequence of 3 cursor operations with symbolic arguments <= 65535","oracle":"no panic/overflow/out-of-bounds; cursor never passes the end; each accessor returns exactly the bytes under the cursor or fails without moving","covers":2,"unwind":6}
+    #[kani::proof]
+    #[kani::unwind(6)]
+    fn c05_buffer_cursor_ops() {
+        let data: [u8; 8] = kani::any();
+        let len: usize = kani::any();
+        kani::assume(len <= 8);
+        let d = &data[..len];
+        let mut buf = Buffer::new(d);
+        one_op(&mut buf, d);
+        one_op(&mut buf, d);
+        one_op(&mut buf, d);
+        kani::cover!(buf.offset == len && len == 8, "consumed everything");
+        kani::cover!(buf.offset == 0 && len > 0, "nothing consumed");
+    }
+
+    /// VERIF: {"p":"C05","tier":"quick","fns":["pktparser::Buffer::set_offset","pktparser::Buffer::skip"],"bounds":"buffer of symbolic length 0..=8, cursor anywhere, skip/set_offset argument <= 65535","oracle":"never panics; result is None exactly when the target passes the end","covers":2,"unwind":3}
+    #[kani::proof]
+    #[kani::unwind(3)]
+    fn c05_buffer_skip_set_offset() {
+        let data: [u8; 8] = kani::any();
+        let len: usize = kani::any();
+        kani::assume(len <= 8);
+        let start: usize = kani::any();
+        kani::assume(start <= len);
+        let arg: usize = kani::any();
+        kani::assume(arg <= 65535);
+        let b = Buffer::new(&data[..len]).set_offset(start).unwrap();
+        let r = b.skip(arg);
+        kani::cover!(r.is_some() && arg > 0, "skipped");
+        kani::cover!(r.is_none(), "refused");
+        match r {
+            Some(b2) => assert!(start + arg <= len && b2.offset == start + arg, "skip lands inside"),
+            None => assert!(start + arg > len, "skip refused only past the end"),
+        }
+    }
+}
